@@ -15,5 +15,6 @@ INVARIANTS
   C13_ObservedMapListAgreement
   C13_ObservedDeletedIsEmpty
   C13_ObservedLinkCounts
+  NonconfReport
 POSTCONDITION Accepted
 CHECK_DEADLOCK FALSE
